@@ -102,3 +102,17 @@ func simReconcileNote(fullsync bool) {
 		SimReconcileHook(fullsync)
 	}
 }
+
+// SimBatchTakenHook gets the change descriptions the watchers hold when a reconciliation is about to take
+// its batch (C14, L2; the batch that reaches the services is observed by services.SimBatchDeliveredHook).
+var SimBatchTakenHook func(objects []string)
+
+func simBatchTaken(w *watchers) {
+	if SimBatchTakenHook == nil {
+		return
+	}
+	w.mu.Lock()
+	objs := append([]string{}, w.ch.Objects...)
+	w.mu.Unlock()
+	SimBatchTakenHook(objs)
+}
